@@ -1,8 +1,18 @@
 //! rfverif: correspondence (real rustfmt code vs the Lean model) and failing-input search.
 //! usage: rfverif <property> --tier quick|thorough --seed N --out DIR
 #![feature(rustc_private)]
+extern crate rustc_ast_pretty;
+extern crate rustc_data_structures;
+extern crate rustc_driver;
+extern crate rustc_errors;
 extern crate rustc_lexer;
+mod boundary;
+extern crate rustc_parse;
+extern crate rustc_session;
+extern crate rustc_span;
+mod astpp;
 mod c01;
+mod c01gen;
 mod c01lit;
 mod c02;
 mod c03;
@@ -12,12 +22,15 @@ mod c12;
 mod c13;
 mod c16;
 mod shape_corr;
+mod lists_corr;
+mod strings_corr;
 mod corpus;
 mod gen;
 mod sweep;
 mod toks;
 mod pool;
 mod c11;
+mod c10;
 mod c04;
 mod c08;
 mod c06;
@@ -25,11 +38,14 @@ mod c20;
 mod cli;
 mod c05;
 mod c15;
+mod c14;
+mod c14child;
 mod sessrun;
 mod c17;
 mod c19;
 mod c18;
 mod c18gen;
+mod c03;
 mod util;
 
 use std::path::PathBuf;
@@ -39,6 +55,9 @@ fn main() {
     let prop = args.get(1).cloned().unwrap_or_default();
     if prop == "--sessrun" {
         std::process::exit(sessrun::child_main(&args[2]));
+    }
+    if prop == "--c14child" {
+        std::process::exit(c14child::child_main(&args[2]));
     }
     if prop == "--worker" {
         std::process::exit(pool::worker_main(&args[2]));
@@ -66,19 +85,27 @@ fn main() {
         "c12" => c12::run(&tier, seed, &out),
         "c16" => c16::run(&tier, seed, &out),
         "c11" => c11::run(&tier, seed, &out),
+        "c10" => c10::run(&tier, seed, &out),
         "c04" => c04::run(&tier, seed, &out),
         "c08" => c08::run(&tier, seed, &out),
         "c06" => c06::run(&tier, seed, &out),
         "c20" => c20::run(&tier, seed, &out),
         "c05" => c05::run(&tier, seed, &out),
         "c15" => c15::run(&tier, seed, &out),
+        "c14" => c14::run(&tier, seed, &out),
         "c17" => c17::run(&tier, seed, &out),
         "c19" => c19::run(&tier, seed, &out),
         "c13" => c13::run(&tier, seed, &out),
         "c13api" => c13::api_main(&args[2..]),
         "c18" => c18::run(&tier, seed, &out),
+        "strings" => strings_corr::run(&tier, seed, &out),
+        "boundary" => boundary::main(&args[2..]),
+        "c03" => c03::run(&tier, seed, &out),
+        "lists" => lists_corr::run(&tier, seed, &out),
         "probe" => probe(&out),
         // rfverif tokens <file> [keep]  : the encoded token list of a file (for the C01/C03 validators)
+        // rfverif astpp <file> [edition] : the second oracle's printed AST
+        "astpp" => { let src = std::fs::read_to_string(&args[2]).unwrap_or_default(); match astpp::pretty(&src, args.get(3).map(|s| s.as_str()).unwrap_or("2024")) { Ok(s) => { println!("{}", s); 0 } Err(e) => { eprintln!("error: {}", e); 1 } } }
         "tokens" => { let src = std::fs::read_to_string(&args[2]).unwrap_or_default(); println!("{}", toks::encode_tokens(&src, args.get(3).map(|s| s == "keep").unwrap_or(false))); 0 }
         // rfverif fmt <file> [k=v,k=v]  : formats a file's text in-process and prints the result
         "fmt" => { let src = std::fs::read_to_string(&args[2]).unwrap_or_default(); let mut cfg: Vec<(String, String)> = corpus::header_config(&src); if let Some(extra) = args.get(3) { for kv in extra.split(',') { if let Some((k, v)) = kv.split_once('=') { cfg.push((k.to_string(), v.to_string())); } } } pool::install_panic_hook(); let r = pool::format_here(&pool::Job { src, cfg, file_lines: None }); eprintln!("status={:?} flags={:?} entries={}", r.status, r.flags, r.entries.len()); print!("{}", r.out); 0 }
